@@ -21,7 +21,7 @@ CHECKS = {
          "A table generated once from the reference release (all cells r<=5, digit-pattern families to r=29 covering every face x quintant x resolution, sphere lattice x resolutions 0..29) is compared entry by entry with the current tree: same id wherever the reference answer contained the point with margin, same centre and corner points within 1e-9 deg wherever the reference output was self-consistent. A second-generation table from the same reference release adds word-aligned ids (low 8..20 curve digits all 0 or all 3), the lattice written with longitudes +-360/+-720 and the centres the reference reports looked up again; a slice of the table is re-evaluated on single fresh threads in descending and jumping resolution order.",
          "Trusts the committed table (golden/PROVENANCE.json with sha256); pins the Rust reference only, not the TS/Python ports.", "4 C06"),
  "C03": ("lattice", "exploration", "exhaustive enumeration of all cell pairs of a face (planar clipping) + exhaustive containing-cell search for lattice points",
-         "For every resolution up to the bound: all same-face cell pairs clipped in the plane, interior points of every cell searched in all cells of the three nearest faces, every lattice point searched exhaustively (>=1 cell within the band, <=1 strictly), signed areas telescoping to 4 pi; at fine resolutions two-ring neighbourhoods found by lookup. At fine resolutions the point must also be covered (no gap), incl. the frozen reference places of word-aligned cells.",
+         "For every resolution up to the bound: all same-face cell pairs clipped in the plane, interior points of every cell searched in all cells of the three nearest faces, every lattice point searched exhaustively (>=1 cell within the band, <=1 strictly), signed areas telescoping to 4 pi; at fine resolutions two-ring neighbourhoods found by lookup. At fine resolutions the point must also be covered (no gap), incl. the frozen reference places of word-aligned cells. Order mixing across face edges: for every cell next to a dodecahedron edge (r=2..3/5) and every cell of the neighbouring face beyond it, all ordered pairs of strict-interior points of both cells are put to the library's containment predicate for each of the two cells on one fresh thread (second answer must be inside exactly for the cell's own points).",
          "Cross-face containment goes through the real forward projection (C15). No-gap verdict is for lattice points; the measure identity bounds the rest.", "4 C03"),
  "C17": ("hilbert-automaton", "model_checking", "exhaustive enumeration of all curve positions to a depth bound x 6 orientations + explicit-state exploration of the digit-walk automaton bound by conformance",
          "All s < 4^n (n<=9/12) for all six orientations on real outputs: pairwise distinct pentagons, centres in the quintant triangle, locating the centre returns s. The digit walk is modelled as a 16-state Mealy machine, compared bit for bit with the real s_to_anchor_internal on every position up to depth 8/10, and its pair automaton is explored for a non-injective witness, which covers every depth. A jumping-order pass visits all depths 1..29 on one thread in a non-monotone order with an unrelated walk between computing and locating each centre.",
@@ -36,13 +36,13 @@ CHECKS = {
          "Every cell r<=4/7 plus families to r=29 and pole/antimeridian cells: area measured from the reported boundary (32-64 segments per edge) with an independent spherical-polygon formula equals sphere/N within 1e-4; areas of a resolution sum to 4 pi; metadata table equals the quotient. Plus fine cells (r>=24) cut by the break lines of the coordinate functions (octant meridians and parallels of the rotated frame, rays at multiples of 45 deg around face centres) and word-aligned cells.",
          "Trusts RefSphere area and the reference authalic conversion.", "4 C04"),
  "C11": ("lattice", "exploration", "exhaustive enumeration of all cells up to a resolution bound x 12 option combinations",
-         "Every cell r<=3/6 plus pole/antimeridian cells at every finer resolution and families x closed/open x n in {1,2,3,7,64,default}: length, closure, finiteness, latitude range, orientation, centre inside, longitude window, corner identity. Plus the ring of the cell a lookup returns, drawn right after the lookup on the same fresh thread (corner, edge-midpoint and centre points of coarse cells at three resolutions each).",
+         "Every cell r<=3/6 plus pole/antimeridian cells at every finer resolution and families x closed/open x n in {1,2,3,7,64,default}: length, closure, finiteness, latitude range, orientation, centre inside, longitude window, corner identity. Plus the ring of the cell a lookup returns, drawn right after the lookup on the same fresh thread (corner, edge-midpoint and centre points of coarse cells at three resolutions each). Option histories: all 13 824 sequences of three requests over 2 cells x closed/open x 6 subdivisions, for 6/11 cell pairs, on one fresh thread each: every ring has the length and the physical points (1e-9 deg) of the same request made first on a fresh thread.",
          "Pole exemption decided on the n=64 ring with a 1e-3 cell-size margin.", "4 C11"),
  "C12": ("lattice", "exploration", "exhaustive enumeration of all parents up to a resolution bound with all children, planar clipping",
          "Every parent r<=4/7 and family parents to r=28 with all children: planar convex clipping shows shared interior, union cover > 1/2, centre distance <= 0.8 sqrt(parent area).",
          "Trusts Sutherland-Hodgman clipping of convex polygons in the shared face plane.", "4 C12"),
  "C15": ("lattice", "exploration", "exhaustive enumeration of sphere and plane lattices against an independent dodecahedron frame",
-         "Sphere lattice relative to nearest and second-nearest face of an independent regular dodecahedron, and a polar plane lattice on all 12 faces: inside/outside the face pentagon and round trips within 1e-12 / 1e-11.",
+         "Sphere lattice relative to nearest and second-nearest face of an independent regular dodecahedron, and a polar plane lattice on all 12 faces: inside/outside the face pentagon and round trips within 1e-12 / 1e-11. Wedge histories: for every face and every 36-degree wedge, all ordered pairs (with echo) of 12 ops (forward/inverse of two points inside the pentagon, two beyond the edge in the same wedge, one inside and one beyond in the next wedge) on one projection object; every call must agree within 1e-11 with the cold round trip of its point.",
          "Lattice verdict only; the frame and pentagon are first-principles constructions.", "4 C15"),
  "C16": ("lattice", "exploration", "exhaustive enumeration of a plane lattice x subdivided probe triangles",
          "Every lattice point of all 12 faces and of the reflected margin, on both sides of every seam and edge: spherical area of the unprojected probe / planar area equals 4 pi / (12 A_face) within 1e-4. Ratios are signed (orientation must be preserved), the wedges beyond the reflected triangle next to the face vertices are probed, the public projection is used with a caller-supplied triangle before and after, and second-difference sweeps walk rays and arcs inside single triangles in equal steps (1e-7 / 2e-8 / 6e-10) requiring consecutive unprojected step lengths to agree within 1e-12.",
@@ -51,7 +51,7 @@ CHECKS = {
          "12 base cells against a first-principles dodecahedron in the documented orientation, all 66 pairs, true angular argmin on the lattice, all 60 quintant<->segment relabellings both ways. The relabellings are repeated through owned copies of every ordered pair of faces (dropped and re-created).",
          "Documented face numbering frozen in the reference.", "4 C18"),
  "C19": ("lattice", "exploration", "exhaustive enumeration of a dyadic latitude grid and a lon/lat grid",
-         "All 2^18+1 / 2^21+1 grid latitudes: round trip, closed-form WGS84 agreement, oddness, strict monotonicity between adjacent points; lon/lat <-> sphere round trip on a grid with lon in [-540, 540]. Latitude ladders: from_lon_lat at one rung followed by to_lon_lat at every other rung (steps 1e-12..1e-4 rad), all ordered pairs.",
+         "All 2^18+1 / 2^21+1 grid latitudes: round trip, closed-form WGS84 agreement, oddness, strict monotonicity between adjacent points; lon/lat <-> sphere round trip on a grid with lon in [-540, 540]. Latitude ladders: from_lon_lat at one rung followed by to_lon_lat at every other rung (steps 1e-12..1e-4 rad), all ordered pairs. Same-argument sequences: all 64 triples over {forward(x), inverse(x), forward(-x), inverse(-x)} for every x of a latitude grid (4 001/80 001 values, |x|<=88 deg), each result judged by the closed form.",
          "Closed form (Snyder) and Gauss-Legendre quadrature references.", "4 C19"),
  # id: (engine, level category, technique, level text, level note, design ref)
  "C05": ("refmodel", "model_checking", "exhaustive reference-model conformance over all tuples (bounded resolution) and all short strings",
